@@ -1112,6 +1112,10 @@ pub fn c07(ctx: Arc<Ctx>) {
 	mounts.push(("folder whose name contains '#'", vec![tfile.clone(), "--static".into(), "wwx#pre".into()], "", false, base.clone(), hash_comps.clone()));
 	mounts.push(("folder and tar given by relative names, tile source = a pipeline file in another directory", vec!["maps/osm.vpl".into(), "--static".into(), "www".into(), "--static".into(), "[/tarassets]www.tar".into()], "", false, base.clone(), root_comps.clone()));
 	mounts.push(("folder and tar given by relative names, tile source = a pipeline file in another directory", vec![], "/tarassets", true, base.clone(), root_comps.clone()));
+	// the root is the server's own working directory, spelled '.', by its absolute path, and under a prefix
+	mounts.push(("folder that is the server's working directory, given as '.'", vec![tabs.clone(), "--static".into(), ".".into()], "", false, root.clone(), root_comps.clone()));
+	mounts.push(("folder that is the server's working directory, given by its absolute path", vec![tabs.clone(), "--static".into(), root.to_string_lossy().to_string()], "", false, root.clone(), root_comps.clone()));
+	mounts.push(("folder that is the server's working directory, given as '.' under a prefix", vec![tabs.clone(), "--static".into(), "[/assets].".into()], "/assets", false, root.clone(), root_comps.clone()));
 	let link_names = ["link.txt", "rel.txt", "hard.txt", "d/up.txt"];
 	let mut server: Option<Server> = None;
 	for (mi, (mname, args, prefix, is_tar, cwd, root_comps)) in mounts.iter().enumerate() {
@@ -1175,6 +1179,11 @@ pub fn c07(ctx: Arc<Ctx>) {
 			};
 			for (qi, q) in sq.iter().enumerate() {
 				if qi % chunks != ci {
+					continue;
+				}
+				// (the working-directory mounts repeat the first mount with another spelling of the root: sequences of
+				// up to three segments there)
+				if mname.contains("working directory") && q.len() > 3 {
 					continue;
 				}
 				let parts: Vec<&str> = q.iter().map(|i| sg[*i]).collect();
